@@ -938,7 +938,7 @@ class History(object):
 def run(ctx):
     from vf import model
     model.check_analysis()
-    for idx in ctx.cases(quick=32, thorough=420):
+    for idx in ctx.cases(quick=48, thorough=300):
         rng = ctx.rng(idx)
         ctx.reseed_global(idx)
         h = History(ctx, rng, idx)
